@@ -16,12 +16,51 @@ namespace Lbfgsb
 variable {α : Type} [Add α] [Sub α] [Mul α] [Div α] [Neg α] [LT α] [DecidableLT α]
   [OfNat α 0] [OfNat α 1]
 
+/-- index of the pivot row of step `k`: the first row `i ∈ [k, n)` with the largest `|M[i][k]|` -/
+def pivotIdx (M : List (Vec α)) (k n : Nat) : Nat :=
+  (List.range' k (n - k)).foldl
+    (fun piv i => if fabs ((M.getD piv []).getD k 0) < fabs ((M.getD i []).getD k 0) then i else piv) k
+
+/-- exchange of two rows -/
+def swapRows (M : List (Vec α)) (i j : Nat) : List (Vec α) :=
+  (M.set i (M.getD j [])).set j (M.getD i [])
+
+/-- the pivot of step `k` (after the row exchange) -/
+def pivotOf (M : List (Vec α)) (k n : Nat) : α :=
+  ((swapRows M k (pivotIdx M k n)).getD k []).getD k 0
+
+/-- step `k` of the Gauss–Jordan elimination: bring the pivot row to position `k`, scale it to a unit
+pivot, eliminate column `k` from every other row -/
+def gjStep (M : List (Vec α)) (k n : Nat) : List (Vec α) :=
+  let M1 := swapRows M k (pivotIdx M k n)
+  let rk0 := M1.getD k []
+  let p := rk0.getD k 0
+  let rk := rk0.map (· / p)
+  M1.mapIdx fun i row => if i = k then rk else (row.zip rk).map fun (a, r) => a - row.getD k 0 * r
+
+/-- steps `k, k+1, …, k + fuel − 1` -/
+def gjLoop (n : Nat) : Nat → Nat → List (Vec α) → List (Vec α)
+  | 0, _, M => M
+  | fuel + 1, k, M => gjLoop n fuel (k + 1) (gjStep M k n)
+
+/-- the pivots met by these steps -/
+def gjPivots (n : Nat) : Nat → Nat → List (Vec α) → List α
+  | 0, _, _ => []
+  | fuel + 1, k, M => pivotOf M k n :: gjPivots n fuel (k + 1) (gjStep M k n)
+
+/-- the augmented matrix `[A | b]` -/
+def augment (A : List (Vec α)) (b : Vec α) : List (Vec α) := (A.zip b).map fun (row, bi) => row ++ [bi]
+
 /-- Gauss–Jordan elimination with partial pivoting on the augmented matrix `[A | b]`. -/
-def gaussSolve (A : List (Vec α)) (b : Vec α) : Vec α := Id.run do
+def gaussSolve (A : List (Vec α)) (b : Vec α) : Vec α :=
+  let n := b.length
+  (gjLoop n n 0 (augment A b)).map fun row => row.getD n 0
+
+/-- the same elimination written with arrays and loops (kept for the comparison of the two, bit for bit, by the driver) -/
+def gaussSolveImp (A : List (Vec α)) (b : Vec α) : Vec α := Id.run do
   let n := b.length
   let mut M : Array (Array α) := (A.zip b).toArray.map fun (row, bi) => (row ++ [bi]).toArray
   for k in [0:n] do
-    -- pivot: largest |entry| in column k among rows k..n-1
     let mut piv := k
     for i in [k:n] do
       if fabs (M[piv]!.getD k 0) < fabs (M[i]!.getD k 0) then piv := i
